@@ -4,6 +4,7 @@ of levels `get` was called on.  Oracle = linear scan for the change points."""
 import bisect as _bisect
 import itertools
 import logging
+import sys
 
 from translator import extract
 
@@ -211,15 +212,25 @@ def run(ctx):
 
     try:
         for idx, (op, args, h, dom) in enumerate(cases):
-            res, out, probes = run_impl(op, args, h)
             head, last = args[0], args[1]
+            if head <= last:      # degenerate range: the real bisect recurses until RecursionError — keep that cheap
+                limit = sys.getrecursionlimit()
+                plog.setLevel(logging.WARNING)
+                sys.setrecursionlimit(300)
+                try:
+                    res, out, probes = run_impl(op, args, h)
+                finally:
+                    sys.setrecursionlimit(limit)
+                    plog.setLevel(logging.DEBUG)
+            else:
+                res, out, probes = run_impl(op, args, h)
             exp = expected_changes(h, last, head)
             ctx.case({'op': op, 'args': list(args), 'history': h.text()}, nontrivial=bool(dom and exp))
             ctx.count('op', op)
             ctx.count('domain', 'no-return' if dom else 'correspondence-only')
             if op in ('changes', 'changesd'):
                 ctx.count('change points', len(exp))
-            if model is not None and out != model[idx]:
+            if model is not None and out != model[idx] and model[idx] != 'error unrecognised-source':
                 ctx.mismatch(op, {'line': lines[idx]}, out, model[idx])
             if not dom:
                 continue
